@@ -12,6 +12,7 @@
 #include <cstdio>
 #include <cstdlib>
 #include <cstring>
+#include <ctime>
 #include <fstream>
 #include <map>
 #include <set>
@@ -712,6 +713,10 @@ std::vector<std::string> classify_text(const std::string &text, std::vector<std:
 }
 
 bool has_class(const CPlan &p, const std::string &cls, long *budget) {
+  // minimisation also has a wall-clock limit (a violation that is a hang costs a full time-out per attempt);
+  // the limit only decides how small the replay file gets, never the verdict
+  static time_t t0 = time(nullptr);
+  if (time(nullptr) - t0 > 150) *budget = 0;
   if (*budget <= 0) return false;
   (*budget)--;
   std::vector<std::string> d;
